@@ -15,8 +15,10 @@ import (
 	"math"
 	"os"
 	"path/filepath"
+	"regexp"
 	"runtime/debug"
 	"sort"
+	"strconv"
 	"strings"
 	"sync"
 	"time"
@@ -420,6 +422,38 @@ type corpusShape struct {
 	bulks    int
 	inter    int // search between bulks: 0 none, 1 all tokens, 2 tokens of the next bulk
 	repeat   bool // documents may carry the same token 2-3 times
+	rich     bool // longer values, numbers and number-like text among the values; the full leaf language in queries
+	pool     []string // values present in the corpus (filled after generation), so that patterns and ranges hit
+}
+
+var numRe = regexp.MustCompile(`^[+-]?[0-9]{1,15}$`)
+
+// numAgrees: the model parses numbers on the decimal-integer fragment only (Model.v parse_num); a string is usable
+// as a token value / range bound when the real strconv.ParseFloat (finite result) agrees with that fragment.
+func numAgrees(s string) bool {
+	v, err := strconv.ParseFloat(s, 64)
+	goNum := err == nil && !math.IsNaN(v) && !math.IsInf(v, 0)
+	return goNum == numRe.MatchString(s)
+}
+
+func richValue(r *rng.R, sh corpusShape) string {
+	var v string
+	switch r.Intn(6) {
+	case 0:
+		v = fmt.Sprint(r.Range(0, 150) - 20)
+	case 1:
+		v = rng.Pick(r, []string{"007", "0", "-0", "10", "9", "100", "-3", "12", "7"})
+	case 2:
+		v = randValue(r, "abc", 2) + fmt.Sprint(r.Intn(20)) // x7-like: not a number
+	case 3:
+		v = randValue(r, sh.alphabet+"-", 4)
+	default:
+		v = randValue(r, sh.alphabet, 4)
+	}
+	if !numAgrees(v) {
+		return "a"
+	}
+	return v
 }
 
 func genCorpus(r *rng.R, sh corpusShape) []doc {
@@ -444,6 +478,9 @@ func genCorpus(r *rng.R, sh corpusShape) []doc {
 		have := map[token]bool{}
 		for i := 0; i < nt; i++ {
 			t := token{F: r.Intn(nFields), V: randValue(r, sh.alphabet, sh.maxLen)}
+			if sh.rich && r.Chance(2, 3) {
+				t.V = richValue(r, sh)
+			}
 			if !have[t] {
 				have[t] = true
 				d.Toks = append(d.Toks, t)
@@ -465,12 +502,78 @@ func genCorpus(r *rng.R, sh corpusShape) []doc {
 	return out
 }
 
+// a term of a Literal: text or the star
+type term struct {
+	Star bool   `json:"star,omitempty"`
+	Text string `json:"text,omitempty"`
+}
+
 type expr struct {
-	Kind string `json:"kind"` // lit prefix suffix not and or
+	Kind string `json:"kind"` // lit prefix suffix glob range in not and or
 	F    int    `json:"f"`
 	V    string `json:"v"`
 	A    *expr  `json:"a,omitempty"`
 	B    *expr  `json:"b,omitempty"`
+	// glob: Terms; in: Alts; range: Lo/Hi (nil = unbounded `*`), IncLo/IncHi
+	Terms []term   `json:"terms,omitempty"`
+	Alts  [][]term `json:"alts,omitempty"`
+	Lo    *string  `json:"lo,omitempty"`
+	Hi    *string  `json:"hi,omitempty"`
+	IncLo bool     `json:"inc_lo,omitempty"`
+	IncHi bool     `json:"inc_hi,omitempty"`
+}
+
+func bytesCoq(s string) string {
+	p := make([]string, len(s))
+	for i := 0; i < len(s); i++ {
+		p[i] = fmt.Sprint(s[i])
+	}
+	return "[" + strings.Join(p, "; ") + "]"
+}
+
+func termsCoq(ts []term) string {
+	p := make([]string, len(ts))
+	for i, t := range ts {
+		if t.Star {
+			p[i] = "TStar"
+		} else {
+			p[i] = "TText " + bytesCoq(t.Text)
+		}
+	}
+	return "[" + strings.Join(p, "; ") + "]"
+}
+
+func termsText(ts []term) string {
+	var sb strings.Builder
+	for _, t := range ts {
+		if t.Star {
+			sb.WriteByte('*')
+		} else {
+			sb.WriteString(t.Text)
+		}
+	}
+	return sb.String()
+}
+
+func boundCoq(b *string) string {
+	if b == nil {
+		return "RUnb"
+	}
+	return "(RVal " + bytesCoq(*b) + ")"
+}
+
+func boundText(b *string) string {
+	if b == nil {
+		return "*"
+	}
+	if *b == "" {
+		return `""`
+	}
+	return *b
+}
+
+func rangeCoq(f int, lo, hi *string, il, ih bool) string {
+	return fmt.Sprintf("(QLeaf (PRange %d %s %s %s %s))", f, boundCoq(lo), boundCoq(hi), casefile.Bool(il), casefile.Bool(ih))
 }
 
 func (e *expr) coq() string {
@@ -488,6 +591,16 @@ func (e *expr) coq() string {
 		return fmt.Sprintf("(QLeaf (PPrefix %d %s))", e.F, bs(e.V))
 	case "suffix":
 		return fmt.Sprintf("(QLeaf (PSuffix %d %s))", e.F, bs(e.V))
+	case "glob":
+		return fmt.Sprintf("(QLeaf (PGlob %d %s))", e.F, termsCoq(e.Terms))
+	case "range":
+		return rangeCoq(e.F, e.Lo, e.Hi, e.IncLo, e.IncHi)
+	case "in":
+		p := make([]string, len(e.Alts))
+		for i, a := range e.Alts {
+			p[i] = termsCoq(a)
+		}
+		return fmt.Sprintf("(QLeaf (PIn %d [%s]))", e.F, strings.Join(p, "; "))
 	case "not":
 		return "(QNot " + e.A.coq() + ")"
 	case "and":
@@ -504,6 +617,23 @@ func (e *expr) text() string {
 		return fmt.Sprintf("f%d:%s*", e.F, e.V)
 	case "suffix":
 		return fmt.Sprintf("f%d:*%s", e.F, e.V)
+	case "glob":
+		return fmt.Sprintf("f%d:%s", e.F, termsText(e.Terms))
+	case "range":
+		o, c := "(", ")"
+		if e.IncLo {
+			o = "["
+		}
+		if e.IncHi {
+			c = "]"
+		}
+		return fmt.Sprintf("f%d:%s%s, %s%s", e.F, o, boundText(e.Lo), boundText(e.Hi), c)
+	case "in":
+		p := make([]string, len(e.Alts))
+		for i, a := range e.Alts {
+			p[i] = termsText(a)
+		}
+		return fmt.Sprintf("f%d:in(%s)", e.F, strings.Join(p, ", "))
 	case "not":
 		return "(not " + e.A.text() + ")"
 	case "and":
@@ -519,11 +649,168 @@ func (e *expr) has(kind string) bool {
 	return e.Kind == kind || e.A.has(kind) || e.B.has(kind)
 }
 
+// a value to build a pattern or a bound from: mostly one that occurs in the corpus
+func poolValue(r *rng.R, sh corpusShape) string {
+	if len(sh.pool) > 0 && r.Chance(3, 4) {
+		return rng.Pick(r, sh.pool)
+	}
+	return richValue(r, sh)
+}
+
+// globTerms cuts v into pieces separated by nstars stars; empty pieces give leading / trailing / doubled stars
+func globTerms(r *rng.R, v string, nstars int) []term {
+	cuts := make([]int, nstars)
+	for i := range cuts {
+		cuts[i] = r.Intn(len(v) + 1)
+	}
+	sort.Ints(cuts)
+	var ts []term
+	prev := 0
+	for _, c := range cuts {
+		piece := v[prev:c]
+		if r.Chance(1, 4) && len(piece) > 1 { // a star swallows part of the value
+			piece = piece[:len(piece)-1]
+		}
+		if piece != "" {
+			ts = append(ts, term{Text: piece})
+		}
+		ts = append(ts, term{Star: true})
+		prev = c
+	}
+	if last := v[prev:]; last != "" {
+		if r.Chance(1, 5) && len(last) > 1 {
+			last = last[1:]
+		}
+		ts = append(ts, term{Text: last})
+	}
+	return ts
+}
+
+func richLeaf(r *rng.R, sh corpusShape, f int) *expr {
+	switch r.Intn(10) {
+	case 0: // the star alone, or two stars
+		if r.Bool() {
+			return &expr{Kind: "glob", F: f, Terms: []term{{Star: true}, {Star: true}}}
+		}
+		return &expr{Kind: "glob", F: f, Terms: []term{{Star: true}}}
+	case 1: // prefix and suffix that overlap in the value they come from: p*s must not match a value shorter than |p|+|s|
+		v := poolValue(r, sh)
+		i := r.Range(1, len(v))
+		j := r.Intn(i + 1)
+		if j == len(v) {
+			j = len(v) - 1
+		}
+		return &expr{Kind: "glob", F: f, Terms: []term{{Text: v[:i]}, {Star: true}, {Text: v[j:]}}}
+	case 2, 3, 4: // 1..3 stars cut into a value
+		v := poolValue(r, sh)
+		ts := globTerms(r, v, r.Range(1, 3))
+		return &expr{Kind: "glob", F: f, Terms: ts}
+	case 5, 6, 7: // ranges
+		bound := func() *string {
+			switch r.Intn(7) {
+			case 0:
+				return nil
+			case 1:
+				v := fmt.Sprint(r.Range(0, 150) - 20)
+				return &v
+			case 2:
+				v := ""
+				return &v
+			}
+			v := poolValue(r, sh)
+			return &v
+		}
+		e := &expr{Kind: "range", F: f, Lo: bound(), Hi: bound(), IncLo: r.Bool(), IncHi: r.Bool()}
+		if r.Chance(1, 3) { // both ends numbers
+			a, b := r.Range(0, 150)-20, r.Range(0, 150)-20
+			if a > b && r.Chance(3, 4) {
+				a, b = b, a
+			}
+			sa, sb := fmt.Sprint(a), fmt.Sprint(b)
+			e.Lo, e.Hi = &sa, &sb
+		}
+		for _, b := range []*string{e.Lo, e.Hi} {
+			if b != nil && !numAgrees(*b) {
+				*b = "a"
+			}
+		}
+		return e
+	default: // in-list
+		n := r.Range(1, 4)
+		e := &expr{Kind: "in", F: f}
+		for i := 0; i < n; i++ {
+			v := poolValue(r, sh)
+			if r.Chance(1, 3) {
+				e.Alts = append(e.Alts, globTerms(r, v, 1))
+			} else {
+				e.Alts = append(e.Alts, []term{{Text: v}})
+			}
+		}
+		return e
+	}
+}
+
+func (e *expr) leafKinds(out map[string]bool) {
+	if e == nil {
+		return
+	}
+	switch e.Kind {
+	case "glob":
+		n := 0
+		for _, t := range e.Terms {
+			if t.Star {
+				n++
+			}
+		}
+		out[fmt.Sprintf("leaf:glob-%d-stars", n)] = true
+		if len(e.Terms) == n {
+			out["leaf:stars-only"] = true
+		}
+		if n == 1 && len(e.Terms) == 3 {
+			out["leaf:prefix*suffix"] = true
+		}
+		if n >= 2 && len(e.Terms) > n {
+			out["leaf:glob-with-middle-or-multi"] = true
+		}
+	case "range":
+		num := func(b *string) bool { return b == nil || numRe.MatchString(*b) }
+		switch {
+		case e.Lo == nil && e.Hi == nil:
+			out["leaf:range-both-unbounded"] = true
+		case num(e.Lo) && num(e.Hi):
+			out["leaf:range-numeric"] = true
+		default:
+			out["leaf:range-text"] = true
+		}
+		if e.Lo == nil || e.Hi == nil {
+			out["leaf:range-unbounded-end"] = true
+		}
+		if !e.IncLo || !e.IncHi {
+			out["leaf:range-open-end"] = true
+		}
+	case "in":
+		out["leaf:in-list"] = true
+	case "not":
+		if e.A != nil && (e.A.Kind == "in" || e.A.Kind == "range" || e.A.Kind == "glob") {
+			out["leaf:not-over-"+e.A.Kind] = true
+		}
+	default:
+		if e.A == nil {
+			out["leaf:"+e.Kind] = true
+		}
+	}
+	e.A.leafKinds(out)
+	e.B.leafKinds(out)
+}
+
 func randExpr(r *rng.R, depth int, sh corpusShape) *expr {
 	if depth == 0 || r.Chance(1, 4) {
 		f := r.Intn(nFields)
 		if r.Chance(1, 10) {
 			f = nFields // mapped, but holds no token
+		}
+		if sh.rich && r.Chance(2, 3) {
+			return richLeaf(r, sh, f)
 		}
 		switch r.Intn(8) {
 		case 0, 2:
@@ -535,6 +822,9 @@ func randExpr(r *rng.R, depth int, sh corpusShape) *expr {
 			return &expr{Kind: "prefix", F: f, V: v}
 		case 1:
 			return &expr{Kind: "suffix", F: f, V: randValue(r, sh.alphabet, 1)}
+		}
+		if sh.rich && r.Chance(1, 2) {
+			return &expr{Kind: "lit", F: f, V: poolValue(r, sh)}
 		}
 		return &expr{Kind: "lit", F: f, V: randValue(r, sh.alphabet, sh.maxLen)}
 	}
@@ -595,9 +885,43 @@ func astCoq(n *parser.ASTNode) (string, error) {
 		case len(v.Terms) == 2 && star(v.Terms[0]) && text(v.Terms[1]):
 			e.Kind, e.V = "suffix", v.Terms[1].Data
 		default:
-			return "", fmt.Errorf("literal %v", v.Terms)
+			e.Kind = "glob"
+			for _, t := range v.Terms {
+				switch {
+				case star(t):
+					e.Terms = append(e.Terms, term{Star: true})
+				case text(t):
+					e.Terms = append(e.Terms, term{Text: t.Data})
+				default:
+					return "", fmt.Errorf("literal %v", v.Terms)
+				}
+			}
 		}
 		return e.coq(), nil
+	case *parser.Range:
+		var f int
+		if _, err := fmt.Sscanf(v.Field, "f%d", &f); err != nil {
+			return "", fmt.Errorf("field %q", v.Field)
+		}
+		bound := func(t parser.Term) (*string, error) {
+			switch {
+			case t.Kind == parser.TermSymbol && t.Data == "*":
+				return nil, nil
+			case t.Kind == parser.TermText:
+				d := t.Data
+				return &d, nil
+			}
+			return nil, fmt.Errorf("range term %v", t)
+		}
+		lo, err := bound(v.From)
+		if err != nil {
+			return "", err
+		}
+		hi, err := bound(v.To)
+		if err != nil {
+			return "", err
+		}
+		return rangeCoq(f, lo, hi, v.IncludeFrom, v.IncludeTo), nil
 	}
 	return "", fmt.Errorf("token %T", n.Value)
 }
@@ -695,7 +1019,7 @@ func idsCoq(ids [][2]uint64) string {
 }
 
 // runs one corpus: builds the fraction(s) and answers the requests
-func runCorpus(r *rng.R, tmp string, idx int, sh corpusShape, nreq, depthMax int, mode string) (res searchResult) {
+func runCorpus(r *rng.R, tmp string, idx int, sh corpusShape, nreq, depthMax int, mode string, lidCap, ipb int) (res searchResult) {
 	corpus := genCorpus(r, sh)
 	// arrival order: shuffled, or ascending / descending by time
 	switch r.Intn(4) {
@@ -703,6 +1027,15 @@ func runCorpus(r *rng.R, tmp string, idx int, sh corpusShape, nreq, depthMax int
 		sort.Slice(corpus, func(i, j int) bool { return corpus[i].MID < corpus[j].MID })
 	case 1:
 		sort.Slice(corpus, func(i, j int) bool { return corpus[i].MID > corpus[j].MID })
+	}
+	seenV := map[string]bool{}
+	for _, d := range corpus {
+		for _, t := range d.Toks {
+			if !seenV[t.V] && len(sh.pool) < 64 {
+				seenV[t.V] = true
+				sh.pool = append(sh.pool, t.V)
+			}
+		}
 	}
 	reqs := make([]request, nreq)
 	for i := range reqs {
@@ -713,7 +1046,7 @@ func runCorpus(r *rng.R, tmp string, idx int, sh corpusShape, nreq, depthMax int
 	for b := range cuts {
 		cuts[b] = len(corpus) * (b + 1) / nb
 	}
-	return execCorpus(tmp, idx, corpus, reqs, cuts, sh.inter, mode)
+	return execCorpus(tmp, idx, corpus, reqs, cuts, sh.inter, mode, lidCap, ipb)
 }
 
 // interRequest is the search issued between two bulks: it makes the active fraction merge the queued LIDs
@@ -756,7 +1089,10 @@ type asked struct {
 }
 
 // ask sends one request to the fraction's DataProvider.Search and renders the observation
-func ask(f frac.Fraction, q request) (*asked, error, error) {
+func ask(f frac.Fraction, q request) (*asked, error, error) { return askCap(f, q, 0, nil) }
+
+// askCap: lidCap > 0 answers through the sealed LID path built with that block capacity (frac.VerifC02SmallCapSearch)
+func askCap(f frac.Fraction, q request, lidCap int, blocks *[2]int) (*asked, error, error) {
 	p, err := (fracbuild.Query{Text: q.Text, Mapping: mapping, From: q.From, To: q.To, Limit: q.Limit, Reverse: q.Reverse, WithTotal: q.WT, Hist: q.Hist}).Params()
 	if err != nil {
 		return nil, nil, fmt.Errorf("parse: %w", err)
@@ -765,7 +1101,12 @@ func ask(f frac.Fraction, q request) (*asked, error, error) {
 	if err != nil {
 		return nil, nil, fmt.Errorf("ast: %w", err)
 	}
-	qpr, err := searchGuarded(f, p)
+	var qpr *seq.QPR
+	if lidCap > 0 {
+		qpr, err = smallCapGuarded(f, p, lidCap, blocks)
+	} else {
+		qpr, err = searchGuarded(f, p)
+	}
 	if err != nil {
 		return nil, err, nil
 	}
@@ -782,12 +1123,15 @@ func ask(f frac.Fraction, q request) (*asked, error, error) {
 	return &asked{sq: sq, ans: a}, nil, nil
 }
 
-func execCorpus(tmp string, idx int, corpus []doc, reqs []request, cuts []int, inter int, mode string) (res searchResult) {
+func execCorpus(tmp string, idx int, corpus []doc, reqs []request, cuts []int, inter int, mode string, lidCap, ipb int) (res searchResult) {
 	if len(cuts) == 0 || cuts[len(cuts)-1] != len(corpus) {
 		cuts = append(append([]int{}, cuts...), len(corpus))
 	}
 	res.class = "search-" + mode
-	input := map[string]any{"mode": mode, "cuts": cuts, "inter": inter, "docs": corpus, "requests": reqs}
+	input := map[string]any{"mode": mode, "cuts": cuts, "inter": inter, "docs": corpus, "requests": reqs, "lid_cap": lidCap, "ipb": ipb}
+	if mode != "smallcap" {
+		lidCap = 0
+	}
 	res.input = input
 	fail := func(fp, what string) searchResult {
 		res.viol = append(res.viol, casefile.Violation{Fingerprint: fp, What: what, Input: input})
@@ -879,15 +1223,30 @@ func execCorpus(tmp string, idx int, corpus []doc, reqs []request, cuts []int, i
 	var sqs []string
 	var answers []any
 	for qi, q := range reqs {
-		as, serr, herr := ask(f, q)
+		var blk [2]int
+		as, serr, herr := askCap(f, q, lidCap, &blk)
 		if herr != nil {
 			return fail("harness-error", herr.Error())
 		}
 		if serr != nil {
 			res.viol = append(res.viol, casefile.Violation{Fingerprint: "search-error:" + errClass(serr), What: "Search fails: " + serr.Error(),
-				Input: map[string]any{"mode": mode, "cuts": cuts, "inter": inter, "docs": corpus, "request": q}})
+				Input: map[string]any{"mode": mode, "cuts": cuts, "inter": inter, "docs": corpus, "request": q, "lid_cap": lidCap, "ipb": ipb}})
 			continue
 		}
+		if lidCap > 0 && qi == 0 {
+			if blk[0] > 1 {
+				res.counts = append(res.counts, "smallcap:several-lid-blocks")
+			}
+			if blk[1] > 0 {
+				res.counts = append(res.counts, "smallcap:continued-blocks")
+			}
+		}
+		kinds := map[string]bool{}
+		q.E.leafKinds(kinds)
+		for k := range kinds {
+			res.counts = append(res.counts, k)
+		}
+		res.counts = append(res.counts, timeRangeClass(corpus, q))
 		a := as.ans
 		answers = append(answers, a)
 		sqs = append(sqs, as.sq)
@@ -933,7 +1292,20 @@ func execCorpus(tmp string, idx int, corpus []doc, reqs []request, cuts []int, i
 		}
 	}
 	res.impl = answers
-	res.coq = fmt.Sprintf("CSearch\n   %s\n   [%s]", corpusCoq(corpus), strings.Join(sqs, ";\n    "))
+	switch mode {
+	case "active":
+		// answered through the provider: the model clamps [from,to] to Info.From/To
+		res.coq = fmt.Sprintf("CActive\n   %s\n   [%s]", corpusCoq(corpus), strings.Join(sqs, ";\n    "))
+	case "sealed", "restarted":
+		res.coq = fmt.Sprintf("CSealed %d %d\n   %s\n   [%s]", idsPerBlock, lidBlockCap, corpusCoq(corpus), strings.Join(sqs, ";\n    "))
+	case "smallcap":
+		res.coq = fmt.Sprintf("CSealed %d %d\n   %s\n   [%s]", ipb, lidCap, corpusCoq(corpus), strings.Join(sqs, ";\n    "))
+	default:
+		res.coq = fmt.Sprintf("CSearch\n   %s\n   [%s]", corpusCoq(corpus), strings.Join(sqs, ";\n    "))
+	}
+	if len(sqs) == 0 {
+		res.coq = ""
+	}
 	if asScript {
 		res.class = "script-active"
 		res.coq = "CScript [\n   " + strings.Join(script, ";\n   ") + "]"
@@ -943,6 +1315,30 @@ func execCorpus(tmp string, idx int, corpus []doc, reqs []request, cuts []int, i
 		res.borders[i].coq = strings.Replace(res.borders[i].coq, fmt.Sprintf("corpus_%d", idx), "\n   "+corpusCoq(corpus)+"\n  ", 1)
 	}
 	return res
+}
+
+const (
+	idsPerBlock = 4096  // consts.IDsPerBlock
+	lidBlockCap = 65536 // consts.LIDBlockCap
+)
+
+// where the requested [from,to] lies relative to Info.From/To of the fraction
+func timeRangeClass(corpus []doc, q request) string {
+	lo, hi := uint64(math.MaxUint64), uint64(0)
+	for _, d := range corpus {
+		lo, hi = min(lo, d.MID), max(hi, d.MID)
+	}
+	switch {
+	case q.From > q.To:
+		return "timerange:inverted"
+	case q.To < lo || q.From > hi:
+		return "timerange:wholly-outside-info"
+	case q.From <= lo && q.To >= hi:
+		return "timerange:covers-info"
+	case q.From < lo || q.To > hi:
+		return "timerange:partly-outside-info"
+	}
+	return "timerange:inside-info"
 }
 
 func errClass(err error) string {
@@ -959,6 +1355,34 @@ func errClass(err error) string {
 		}
 	}
 	return sb.String()
+}
+
+func smallCapGuarded(f frac.Fraction, p processor.SearchParams, lidCap int, blocks *[2]int) (*seq.QPR, error) {
+	type out struct {
+		q   *seq.QPR
+		err error
+	}
+	ch := make(chan out, 1)
+	go func() {
+		defer func() {
+			if r := recover(); r != nil {
+				ch <- out{nil, fmt.Errorf("panic: %v", r)}
+			}
+		}()
+		dp, release := f.DataProvider(context.Background())
+		defer release()
+		q, nb, nc, err := frac.VerifC02SmallCapSearch(dp, p, lidCap)
+		if blocks != nil {
+			blocks[0], blocks[1] = nb, nc
+		}
+		ch <- out{q, err}
+	}()
+	select {
+	case o := <-ch:
+		return o.q, o.err
+	case <-time.After(60 * time.Second):
+		return nil, fmt.Errorf("hang: search does not return within 60s")
+	}
 }
 
 // Search with a watchdog: a merge node that never ends would hang the run
@@ -1046,11 +1470,13 @@ func main() {
 	}
 	defer os.RemoveAll(tmp)
 	type job struct {
-		r     *rng.R
-		sh    corpusShape
-		nreq  int
-		depth int
-		mode  string
+		r      *rng.R
+		sh     corpusShape
+		nreq   int
+		depth  int
+		mode   string
+		lidCap int
+		ipb    int
 	}
 	jobs := make([]job, 0, nCorpus+nBig)
 	modes := []string{"active", "active", "sealed", "restarted"}
@@ -1091,6 +1517,18 @@ func main() {
 			nreq = 8
 		}
 		mode := rng.Pick(r, modes)
+		sh.rich = r.Chance(2, 3)
+		lidCap, ipb := 0, 1
+		if !big && i%4 == 3 {
+			// the sealed LID path over blocks of a SMALL capacity (real generator, Pack/unpack, Table, iterators)
+			mode = "smallcap"
+			lidCap = rng.Pick(r, []int{1, 1, 2, 3, 4, 5, 8, 16})
+			ipb = rng.Pick(r, []int{1, 2, 3, 4, 7, 16})
+			if sh.n < 6 {
+				sh.n = r.Range(6, 40)
+				sh.midSpan = r.Range(1, 12)
+			}
+		}
 		if *tier == "thorough" && i >= nCorpus+nBig-2 {
 			// more than consts.IDsPerBlock (4096) IDs in a sealed fraction: several ID blocks, so that the
 			// MinBlockIDs shortcuts of sealedIDsIndex.LessOrEqual take part
@@ -1098,7 +1536,7 @@ func main() {
 			sh.midSpan = r.Range(50, sh.n)
 			mode = rng.Pick(r, []string{"sealed", "restarted"})
 		}
-		jobs = append(jobs, job{r: r.Fork(), sh: sh, nreq: nreq, depth: 4, mode: mode})
+		jobs = append(jobs, job{r: r.Fork(), sh: sh, nreq: nreq, depth: 4, mode: mode, lidCap: lidCap, ipb: ipb})
 	}
 	results := make([]searchResult, len(jobs))
 	var wg sync.WaitGroup
@@ -1110,7 +1548,7 @@ func main() {
 			defer wg.Done()
 			defer func() { <-sem }()
 			j := jobs[i]
-			results[i] = runCorpus(j.r, tmp, i, j.sh, j.nreq, j.depth, j.mode)
+			results[i] = runCorpus(j.r, tmp, i, j.sh, j.nreq, j.depth, j.mode, j.lidCap, j.ipb)
 		}(i)
 	}
 	wg.Wait()
@@ -1186,6 +1624,8 @@ func doReplay(w *casefile.Writer, path string) {
 		Request  *request   `json:"request"`
 		From     *uint64    `json:"from"`
 		To       *uint64    `json:"to"`
+		LidCap   int        `json:"lid_cap"`
+		Ipb      int        `json:"ipb"`
 	}
 	if err := json.Unmarshal(raw, &in); err != nil {
 		panic(err)
@@ -1226,7 +1666,13 @@ func doReplay(w *casefile.Writer, path string) {
 		if in.Mode == "" {
 			in.Mode = "active"
 		}
-		res := execCorpus(tmp, 0, in.Docs, reqs, in.Cuts, in.Inter, in.Mode)
+		if in.Mode == "smallcap" && in.LidCap <= 0 {
+			in.LidCap = 1
+		}
+		if in.Ipb <= 0 {
+			in.Ipb = 1
+		}
+		res := execCorpus(tmp, 0, in.Docs, reqs, in.Cuts, in.Inter, in.Mode, in.LidCap, in.Ipb)
 		for _, v := range res.viol {
 			w.Violate(v.Fingerprint, v.What, v.Input)
 		}
